@@ -108,6 +108,7 @@ func propC12(c *Ctx) {
 	c.ruleFirstByteTables("C12-KEYWORD-PREFILTER") // a Description's Text lexeme must end where the next directive starts
 	c.ruleParamsPositionFree("C12-PARAMS-POSITION-FREE")
 	c.ruleNextDrains("C12-NEXT-DRAINS")
+	c.ruleFoundAtVerbatim("C12-FOUNDAT-VERBATIM")
 	c.ruleReadersRecovered("C12-READERS-RECOVERED")
 	c.ruleOpenTransparent(m, "C12-OPEN-TRANSPARENT")
 	if c.R.Tier == "thorough" {
